@@ -54,6 +54,10 @@ partial def toPipe : Sx → Option Pipe
       match (p :: q :: rest).mapM toPipe with
       | some (p0 :: ps) => some ((p0 :: ps).dropLast.foldr Pipe.concat ((p0 :: ps).getLast!))
       | _ => none
+  | .list [.atom "twice", p] => (toPipe p).map fun p => Pipe.concat p p
+  | .list [.atom "flatmap", .atom "self", k, p] =>
+      -- a source value is a description: subscribing to the same value again (here while the outer subscription is live) is the same program again
+      match sxInt k, toPipe p with | some k, some p => some (Pipe.flatMap (fun a => Pipe.map (fun b => a * k + b) p) p) | _, _ => none
   | .list [.atom "flatmap", .atom "rep", k, p] =>
       match sxNat k, toPipe p with | some k, some p => some (Pipe.flatMap (fun a => Pipe.src (rangeFrom a k)) p) | _, _ => none
   | .list [.atom "flatmap", .atom "tri", k, p] =>
@@ -97,6 +101,7 @@ partial def toProg3 (sx : Sx) : Option Closed.Prog3 :=
   | .list [.atom "src", n] => (sxNat n).map fun n => .src (rangeFrom 1 n)
   | .list [.atom "src", n, a] => match sxNat n, sxInt a with | some n, some a => some (.src (rangeFrom a n)) | _, _ => none
   | .list [.atom "inf", a] => (sxInt a).map fun a => .src (rangeFrom a infLen)
+  | .list [.atom "twice", p] => (toProg3 p).map fun p => .concat2 p p
   | .list [.atom "concat", p, q] => match toProg3 p, toProg3 q with | some p, some q => some (.concat2 p q) | _, _ => none
   | .list (.atom "concat" :: ms) => (ms.mapM toProg3).map fun ps => .concatN ps
   | .list [.atom "flatmap", .atom "rep", k, p] => match sxNat k, toProg3 p with | some k, some p => some (.flatRep k p) | _, _ => none
@@ -140,6 +145,7 @@ partial def toAnyM (sx : Sx) : Option Closed.AnyM :=
   | some p => some p.toM
   | none =>
     match sx with
+    | .list [.atom "twice", p] => (toAnyM p).map fun A => Closed.concatM [A, A]
     | .list (.atom "concat" :: ms) => (ms.mapM toAnyM).map Closed.concatM
     | .list [.atom "flatmap", .atom "rep", k, p] => match sxNat k, toAnyM p with | some k, some A => some (Closed.flatM k A) | _, _ => none
     | .list [.atom "flatmap", .atom "tri", k, p] => match sxNat k, toAnyM p with | some k, some A => some (flatTriM k A) | _, _ => none
